@@ -10,8 +10,8 @@ from sim import run_scenario
 from .base import Result, V
 from . import simcommon as SC
 
-MODULES = ['TickitModel.Props.C07', 'TickitModel.Props.C12']
-THEOREMS = ['minv_init', 'minv_step', 'no_interrupt_lost', 'not_displaced', 'next_tick_not_after_stamp', 'served_as_root', 'tick_ends_after_roots', 'owed_cleared_only_by_update', 'interrupts_coalesce', 'displaced_without_record', 'interrupt_due_now', 'stamp_law', 'late_immediate']
+MODULES = ['TickitModel.Props.C07', 'TickitModel.Props.C07Nested', 'TickitModel.Props.C12']
+THEOREMS = ['minv_init', 'minv_step', 'no_interrupt_lost', 'not_displaced', 'next_tick_not_after_stamp', 'served_as_root', 'tick_ends_after_roots', 'owed_cleared_only_by_update', 'interrupts_coalesce', 'displaced_without_record', 'interrupt_due_now', 'stamp_law', 'late_immediate', 'nested_no_interrupt_lost', 'queued_becomes_root', 'queued_means_told', 'clear_after_tick_loses']
 ANCHORS = ["src/tickit/core/management/schedulers/master.py", "src/tickit/core/management/schedulers/base.py",
            "src/tickit/core/management/schedulers/nested.py", "src/tickit/core/components/system_component.py",
            "src/tickit/core/components/component.py"]
@@ -188,11 +188,126 @@ def _work(item):
             "depth": S.depth_map(scn).get(stims[0]["comp"]) if len(stims) == 1 else None}
 
 
+def nested_diff(rng, n, drv, res):
+    """the real NestedScheduler's interrupt bookkeeping (schedule_interrupt / on_tick) against the
+    Lean transition system Core/NestedInt.lean: random sequences of interrupts and inner ticks, with
+    interrupts arriving WHILE an inner tick is running"""
+    import asyncio
+    from immutables import Map
+    from tickit.core.management.event_router import InverseWiring
+    from tickit.core.management.schedulers.nested import NestedScheduler
+    from tickit.core.typedefs import Changes
+    loop = asyncio.new_event_loop()
+    asyncio.set_event_loop(loop)
+    cases, reals = [], []
+    for _ in range(n):
+        # a plan: list of ("interrupt", c) | ("tick", [interrupts that arrive during the tick])
+        plan = []
+        for _ in range(rng.randrange(2, 9)):
+            if rng.random() < 0.5:
+                plan.append(("interrupt", rng.choice("xyz")))
+            else:
+                plan.append(("tick", [rng.choice("xyz") for _ in range(rng.choice((0, 0, 1, 2)))]))
+        out, acts = [], []
+
+        async def main(plan=plan, out=out, acts=acts):
+            raised = []
+
+            async def raise_interrupt():
+                raised.append(1)
+
+            ns = NestedScheduler(InverseWiring({c: {} for c in "xyz"}), object, object, {}, raise_interrupt)
+            during = []
+
+            class StubTicker:
+                components = set()
+                finished = asyncio.Event()
+                time = 0
+
+                async def __call__(self, time, roots):
+                    out.append({"roots": sorted(set(roots) - {"external", "expose"})})
+                    for c in during:
+                        await ns.schedule_interrupt(c)
+
+            ns.ticker = StubTicker()
+            t = 0
+            for kind, arg in plan:
+                if kind == "interrupt":
+                    n0 = len(raised)
+                    await ns.schedule_interrupt(arg)
+                    acts.append({"a": "interrupt", "c": arg})
+                    out.append({"up": len(raised) > n0})
+                else:
+                    during[:] = arg
+                    n0 = len(raised)
+                    t += 10
+                    await ns.on_tick(t, Changes(Map()))
+                    acts.append({"a": "start", "due": []})
+                    for c in arg:
+                        acts.append({"a": "interrupt", "c": c})
+                        out.append({"up": True})
+                    # the stub tick updates every root and ends
+                    acts.append({"a": "roots-done"})
+                    out.append({"up_total": len(raised) - n0})
+            return True
+        try:
+            loop.run_until_complete(main())
+        except Exception as e:
+            res.violate(V("nested-bookkeeping-crashed", f"{type(e).__name__}:{e}", site="NestedScheduler"), {"plan": plan})
+            continue
+        cases.append((plan, acts))
+        reals.append(out)
+    loop.close()
+    asyncio.set_event_loop(None)
+    # expand "roots-done" into update/end actions using the model's own roots (batch per case)
+    for (plan, acts), real in zip(cases, reals):
+        exp, idx = [], []
+        # first pass to learn roots: run model incrementally
+        req = {"op": "nested", "acts": []}
+        model_out = []
+        for a in acts:
+            if a["a"] == "roots-done":
+                rep = drv.eval([dict(req)])[0] if req["acts"] else []
+                roots = []
+                for r in rep:
+                    if r.get("roots") is not None:
+                        roots = r["roots"]
+                for c in roots:
+                    req["acts"].append({"a": "update", "c": c})
+                req["acts"].append({"a": "end"})
+            else:
+                req["acts"].append(a)
+                idx.append(len(req["acts"]) - 1)
+        rep = drv.eval([req])[0]
+        res.case(str(plan), nontrivial=any(k == "tick" and a for k, a in plan))
+        res.count("nested-bookkeeping-seqs")
+        # compare: roots of every inner tick, and whether each interrupt was passed upward
+        real_roots = [r["roots"] for r in real if "roots" in r]
+        model_roots = [rep[i]["roots"] for i, a in zip(idx, [x for x in acts if x["a"] != "roots-done"]) if a["a"] == "start"]
+        if real_roots != model_roots:
+            res.diverge(f"nested interrupt bookkeeping: inner tick roots impl {real_roots} model {model_roots}", {"plan": plan})
+        if any(r.get("up") is False for r in real):
+            res.violate(V("inner-interrupt-not-raised-upward", f"an inner interrupt was queued without interrupting the enclosing scheduler (plan {plan})", site="NestedScheduler.schedule_interrupt"), {"plan": plan})
+        # the property, directly: every interrupt (also one arriving during a tick) is a root of a later tick
+        pend = []
+        ticks = iter(real_roots)
+        for kind, arg in plan:
+            if kind == "interrupt":
+                pend.append(arg)
+            else:
+                roots = next(ticks)
+                missing = [c for c in pend if c not in roots]
+                if missing:
+                    res.violate(V("interrupt-lost", f"inner interrupts {missing} queued before an inner tick are not among its roots {roots} (plan {plan})", site="NestedScheduler.on_tick", phase="mid-tick"), {"plan": plan})
+                pend = list(arg)
+
+
 def run(tier, seed, drv):
     from concurrent.futures import ProcessPoolExecutor
     res = Result()
     rng = random.Random(seed)
     master_diff(random.Random(seed + 3), 150 if tier == "quick" else 2000, drv, res)
+    nested_diff(random.Random(seed + 4), 60 if tier == "quick" else 600, drv, res)
     items = []
     for si, scn in enumerate(base_scenarios(rng, tier)):
         base = run_scenario(scn, bus="sync")
